@@ -56,14 +56,28 @@ def main():
     ap.add_argument("--keep", action="store_true")
     ap.add_argument("--tier", default="quick")
     ap.add_argument("--quiet", action="store_true")
+    ap.add_argument("--sed", action="append", default=[], help="FILE|PYTHON-REGEX|REPLACEMENT (first match only); may be repeated; then PATCH is a label")
     ap.add_argument("patch")
     ap.add_argument("props", nargs="+")
     a = ap.parse_args()
     d = make_scratch()
     try:
-        r = subprocess.run(["git", "apply", "--unsafe-paths", "--directory", d, os.path.abspath(a.patch)],
+        if a.sed:
+            import re
+            for spec in a.sed:
+                f, rx, rep = spec.split("|", 2)
+                fp = os.path.join(d, f)
+                src = open(fp).read()
+                new, n = re.subn(rx, rep, src, count=1, flags=re.S)
+                if n != 1:
+                    print("SED DID NOT MATCH: " + spec)
+                    return 2
+                open(fp, "w").write(new)
+            r = subprocess.run(["true"])
+        else:
+          r = subprocess.run(["git", "apply", "--unsafe-paths", "--directory", d, os.path.abspath(a.patch)],
                            cwd="/", stdout=subprocess.PIPE, stderr=subprocess.STDOUT, text=True)
-        if r.returncode != 0:
+        if r.returncode != 0 and not a.sed:
             r = subprocess.run(["patch", "-p1", "-d", d, "-i", os.path.abspath(a.patch)],
                                stdout=subprocess.PIPE, stderr=subprocess.STDOUT, text=True)
             if r.returncode != 0:
